@@ -17,6 +17,7 @@ DOC = {
         'C11.R2': 'execute vs to_shell_str per variant: Remove rm(file); SoftLink/HardLink mv(link,tmp) ln[-s](target,link) rm(tmp); RefLink mv cp--reflink rm; Move mv | cp+rm; execute and space_to_reclaim return the same field\'s length',
         'C11.R3': 'every path interpolated into a shell line derives from Path::quote',
         'C11.R4': 'dedupe: enumerate before par_bridge, one (index, commands) item per group; log_script: every received item is pushed, emitted iff index == next, next += 1 per pop, priority Reverse(index)',
+        'C11.R6': 'the quoting applied to every operand is the lossless one (re-evaluates C17.R2, C17.R3, C17.R4)',
         'C11.R5': 'log_script counts 1 and space_to_reclaim() per command; run_script counts 1 and the executed length per successful command',
     },
     'not_decided': 'bash itself; equality of the summaries when commands fail in the real run; the quoting function (C17)',
@@ -89,6 +90,7 @@ def run(ctx):
     r23(ctx)
     r4(ctx)
     r5(ctx)
+    r6(ctx)
     from .common import run_mandatory
     run_mandatory(ctx, 'C11')
 
@@ -381,3 +383,16 @@ def r5(ctx):
         o['key'] = o['key'].replace(o['rule'] + '|', 'C11.R5|', 1)
         o['detail'] = '[%s] %s' % (o['rule'], o['detail'])
         o['rule'] = 'C11.R5'
+
+
+def r6(ctx):
+    from . import c17
+    before = len(ctx.obligations)
+    c17.r2(ctx, ctx.lib)
+    c17.r3(ctx, ctx.lib)
+    c17.r4(ctx, ctx.lib)
+    for o in ctx.obligations[before:]:
+        o['key'] = o['key'].replace(o['rule'] + '|', 'C11.R6|', 1)
+        o['detail'] = '[%s] %s' % (o['rule'], o['detail'])
+        o['rule'] = 'C11.R6'
+    ctx.rules_run.add('C11.R6')
